@@ -4,6 +4,7 @@ import (
 	"fmt"
 	"sort"
 	"strings"
+	"time"
 
 	"github.com/fluffle/goirc/client"
 
@@ -385,10 +386,102 @@ func c15LoneAdderScenario(first string) *explore.Scenario {
 	return sc
 }
 
+// c15LifecycleScenario: the events the client makes itself (REGISTER, CONNECTED, DISCONNECTED) are lines too. A
+// handler in the internal set takes a second of virtual time; the foreground and background handlers that run
+// after it must be given the same event: same Cmd, no arguments, and the same Time.
+func c15LifecycleScenario() *explore.Scenario {
+	sc := &explore.Scenario{
+		Family: "line-copy",
+		Name:   "line-copy/lifecycle-events",
+		Params: map[string]interface{}{"events": "REGISTER,CONNECTED,DISCONNECTED"},
+		Opt:    vx.Options{MaxSteps: 40000, Horizon: time.Hour},
+	}
+	events := []string{client.REGISTER, client.CONNECTED, client.DISCONNECTED}
+	sc.Main = func(env *vx.Env) {
+		c := NewClient("me", nil)
+		for _, ev := range events {
+			ev := ev
+			mk := func(id string, slow bool) client.HandlerFunc {
+				return func(conn *client.Conn, line *client.Line) {
+					vx.Observe("ev", fmt.Sprintf("entry %s %s cmd=%s args=%d time=%d", ev, id, line.Cmd, len(line.Args), line.Time.UnixNano()))
+					if slow {
+						vx.Sleep(time.Second)
+					}
+					line.Time = line.Time.Add(time.Hour)
+					line.Cmd = id
+				}
+			}
+			if c15HaveInternal {
+				c15HandleInternal(c, ev, mk("int", true))
+			}
+			c.HandleFunc(ev, mk("fg0", true))
+			c.HandleFunc(ev, mk("fg1", false))
+			c.HandleBG(ev, mk("bg0", false))
+		}
+		var vc *vx.Conn
+		env.ConnSetup = func(x *vx.Conn) { vc = x }
+		if err := c.Connect(); err != nil {
+			return
+		}
+		vx.Sleep(5 * time.Second)
+		vx.Quiesce()
+		vc.SendLines(welcome)
+		vx.Sleep(5 * time.Second)
+		vx.Quiesce()
+		vc.EOF()
+		vx.Sleep(5 * time.Second)
+		vx.Quiesce()
+	}
+	sc.Check = func(o *vx.Outcome) []explore.Finding {
+		if fs := stdOutcome(o); fs != nil {
+			return fs
+		}
+		var fs []explore.Finding
+		seen := map[string]map[string]string{}
+		for _, r := range o.Log("ev") {
+			f := strings.SplitN(r, " ", 4)
+			if seen[f[1]] == nil {
+				seen[f[1]] = map[string]string{}
+			}
+			seen[f[1]][f[2]] = f[3]
+		}
+		for _, ev := range events {
+			want := 3
+			if c15HaveInternal {
+				want = 4
+			}
+			if len(seen[ev]) != want {
+				fs = append(fs, explore.Finding{Oracle: "delivery-count", Msg: fmt.Sprintf("%s reached %d of %d handlers", ev, len(seen[ev]), want)})
+				continue
+			}
+			ref := ""
+			for _, id := range []string{"int", "fg0", "fg1", "bg0"} {
+				img, ok := seen[ev][id]
+				if !ok {
+					continue
+				}
+				if !strings.HasPrefix(img, "cmd="+ev+" args=0 ") {
+					fs = append(fs, explore.Finding{Oracle: "line-differs-at-entry", Msg: fmt.Sprintf("handler %s of %s was given %s", id, ev, img)})
+				}
+				if ref == "" {
+					ref = img
+				} else if img != ref {
+					fs = append(fs, explore.Finding{Oracle: "line-differs-at-entry", Msg: fmt.Sprintf("the handlers of one %s event were given different lines: %s was given {%s}, an earlier one {%s}", ev, id, img, ref)})
+				}
+			}
+		}
+		if len(fs) > 1 {
+			fs = fs[:1]
+		}
+		return fs
+	}
+	return sc
+}
+
 func init() {
 	Register(&Prop{
 		ID:   "C15",
-		Rule: "two consecutive events of each line shape {PING, tagged PRIVMSG, 0/1/2/15 arguments, tags without arguments, CTCP, JOIN with tracking} delivered to 1-3 foreground and 0-2 background handlers (two shapes also to 10 and 17 foreground / 9 background handlers; and, for five shapes, two more handlers registered in the internal set next to the built-in ones); every handler records a deep image at entry, edits every argument, tag and field with handler-unique values, and re-reads after yielding; plus an event with one single handler that edits its line and registers a handler for the same event in the other set; plus a burst of 40 distinct tagged lines (more than the input queue holds) to 1+2 and 0+3 handlers, each handler's images compared with the 40 parsed events; every execution within the deviation budgets; distinct = distinct canonical observation per scenario",
+		Rule: "two consecutive events of each line shape {PING, tagged PRIVMSG, 0/1/2/15 arguments, tags without arguments, CTCP, JOIN with tracking} delivered to 1-3 foreground and 0-2 background handlers (two shapes also to 10 and 17 foreground / 9 background handlers; and, for five shapes, two more handlers registered in the internal set next to the built-in ones); every handler records a deep image at entry, edits every argument, tag and field with handler-unique values, and re-reads after yielding; plus REGISTER / CONNECTED / DISCONNECTED delivered to an internal, two foreground and a background handler of which two take a second of virtual time (same Cmd, no arguments, same Time for all); plus an event with one single handler that edits its line and registers a handler for the same event in the other set; plus a burst of 40 distinct tagged lines (more than the input queue holds) to 1+2 and 0+3 handlers, each handler's images compared with the 40 parsed events; every execution within the deviation budgets; distinct = distinct canonical observation per scenario",
 		Assumptions: []string{
 			"interleavings at synchronisation/channel/socket granularity plus explicit yields inside handlers (DESIGN.md 3.8)",
 			"'equal to the parsed event' is judged against ParseLine of the wire text (C01 judges the parser itself)",
@@ -438,6 +531,7 @@ func init() {
 				}
 				jobs = append(jobs, ExploreJob("C15", ExploreSpec{Sc: c15StreamScenario(40, h.fg, h.bg), Variants: []int{1, 2, 3}, Budgets: bs, Cache: true}, 60))
 			}
+			jobs = append(jobs, ExploreJob("C15", ExploreSpec{Sc: c15LifecycleScenario(), Variants: []int{1, 2, 3}, Budgets: []explore.Budget{{0, 0}, {1, 0}}, Cache: true}, 20))
 			// an event with one single handler, which registers another one in the other set while it runs
 			for _, first := range []string{"fg", "bg"} {
 				jobs = append(jobs, ExploreJob("C15", ExploreSpec{Sc: c15LoneAdderScenario(first), Variants: []int{1, 2, 3}, Budgets: []explore.Budget{{0, 0}, {1, 0}, {2, 0}}, Cache: true}, 20))
